@@ -2,6 +2,7 @@ package fsm
 
 import (
 	"bytes"
+	"fmt"
 	"github.com/canopy-network/canopy/lib"
 	"github.com/canopy-network/canopy/lib/crypto"
 	"google.golang.org/protobuf/types/known/anypb"
@@ -235,6 +236,11 @@ func (s *StateMachine) CheckSignature(tx *lib.Transaction, authorizedSigners [][
 	publicKey, e := crypto.NewPublicKeyFromBytes(tx.Signature.PublicKey)
 	if e != nil {
 		return nil, ErrInvalidPublicKey(e)
+	}
+	// one signer, one encoding: the public key is not covered by the signature, so an equivalent representation of the same key
+	// (an ETH key with the 0x04 SEC1 prefix) would give the same signed content another transaction hash (replay protection)
+	if !bytes.Equal(publicKey.Bytes(), tx.Signature.PublicKey) {
+		return nil, ErrInvalidPublicKey(fmt.Errorf("non-canonical public key encoding"))
 	}
 	// Legacy "RLP" was historically an ordinary memo for non-Ethereum keys.
 	// RLP.V2 is reserved and always requires an Ethereum key.
